@@ -61,6 +61,18 @@ def single_optional_variants(mmv, a, limit=12):
     """for a structure-typed alternative: the minimal value plus exactly ONE optional property (each in turn, for every alternative of
     that property's own type) — key-presence dispatch in union hooks is sensitive to which optional members are there"""
     a = mmv.resolve_alias(a)
+    if a["kind"] == "array":          # look through arrays and nested alternatives: [v] for every variant v of every element alternative
+        out = []
+        for x in alts(mmv, a["element"]):
+            for v in single_optional_variants(mmv, x, limit):
+                if [v] not in out:
+                    out.append([v])
+        return out[:limit * 4]
+    if a["kind"] == "or":
+        out = []
+        for x in alts(mmv, a):
+            out += [v for v in single_optional_variants(mmv, x, limit) if v not in out]
+        return out[:limit * 4]
     if not (a["kind"] == "reference" and a["name"] in mmv.S):
         return []
     base = mmv.value(a, 1, 0, 0)
@@ -83,7 +95,7 @@ def single_optional_variants(mmv, a, limit=12):
     return out
 
 
-def site_stream(mmv, pkg, shapes=((0, 0), (1, 3)), single_optional=False):
+def site_stream(mmv, pkg, shapes=((0, 0), (1, 3), (2, 1), (3, 0), (3, 3), (4, 2), (5, 1)), single_optional=False):
     """every union occurrence x every alternative x {minimal, near-maximal} value of that alternative in a minimal enclosing value;
     arrays get a heterogeneous element list when several alternatives exist; plus every request's result alternatives."""
     cases = []
